@@ -39,12 +39,25 @@ def log(msg):
     print(f"[vcheck] {msg}", file=sys.stderr, flush=True)
 
 
+def model_stack(argv0):
+    """preexec_fn for the extracted model: the extracted list functions are not tail-recursive, so the OCaml
+    runner gets the largest stack the system allows (the implementation's processes are left alone)"""
+    if isinstance(argv0, str) and argv0.startswith(OCAML):
+        def f():
+            import resource
+            soft, hard = resource.getrlimit(resource.RLIMIT_STACK)
+            resource.setrlimit(resource.RLIMIT_STACK, (hard, hard))
+        return f
+    return None
+
+
 def run(cmd, cwd=None, timeout=3600, env=None, check=True, capture=True):
     e = dict(os.environ)
     e.update({"CARGO_NET_OFFLINE": "true", "TZ": "UTC"})
     if env:
         e.update(env)
     p = subprocess.run(cmd, cwd=cwd, env=e, timeout=timeout, shell=isinstance(cmd, str),
+                       preexec_fn=model_stack(cmd[0] if isinstance(cmd, list) else None),
                        stdout=subprocess.PIPE if capture else None,
                        stderr=subprocess.STDOUT if capture else None, text=True)
     if check and p.returncode != 0:
@@ -236,7 +249,8 @@ def _retry_hangs(argv, path, outp, rc, err, e, timeout):
         lines[idx] = "hang"
         write_lines(path, lines)
         with open(outp, "w") as fo:
-            pr = subprocess.run(argv, stdout=fo, stderr=subprocess.PIPE, env=e, text=True, timeout=timeout)
+            pr = subprocess.run(argv, stdout=fo, stderr=subprocess.PIPE, env=e, text=True, timeout=timeout,
+                                preexec_fn=model_stack(argv[0]))
         rc, err = pr.returncode, pr.stderr
         tries += 1
     return rc, err
@@ -262,7 +276,8 @@ def run_sharded(exe, command, lines, wd, tag, shards=16, timeout=3000, extra=Non
         outp = os.path.join(wd, f"{tag}.{i}.out")
         f = open(outp, "w")
         argv = [exe, command, path] + (extra or [])
-        procs.append((subprocess.Popen(argv, stdout=f, stderr=subprocess.PIPE, env=e, text=True), f, outp,
+        procs.append((subprocess.Popen(argv, stdout=f, stderr=subprocess.PIPE, env=e, text=True,
+                                       preexec_fn=model_stack(argv[0])), f, outp,
                       len(part), argv, path))
     out = []
     t0 = time.time()
@@ -399,7 +414,8 @@ def _run_codec_side(exe, cases, lines, wd, tag, shards, timeout, env=None):
         outp = os.path.join(wd, f"{tag}.{i}.out")
         fo = open(outp, "w")
         argv = [exe, "codec", path]
-        procs.append((subprocess.Popen(argv, stdout=fo, stderr=subprocess.PIPE, env=e, text=True),
+        procs.append((subprocess.Popen(argv, stdout=fo, stderr=subprocess.PIPE, env=e, text=True,
+                                       preexec_fn=model_stack(argv[0])),
                       fo, outp, k, argv, path))
     out = []
     t0 = time.time()
